@@ -47,6 +47,9 @@ from solvor.types import Result
 
 __all__ = ["articulation_points", "bridges"]
 
+# Marks the root of a DFS tree (None is a legal node label)
+_NO_PARENT = object()
+
 
 def articulation_points[S](
     nodes: Iterable[S],
@@ -73,44 +76,49 @@ def articulation_points[S](
 
     discovery: dict[S, int] = {}
     low: dict[S, int] = {}
-    parent: dict[S, S | None] = {}
+    parent: dict[S, object] = {}
     ap: set[S] = set()
-    time = [0]
+    time = 0
     iterations = 0
 
-    def dfs(v: S) -> None:
-        nonlocal iterations
+    # Iterative DFS (an explicit stack, so deep graphs do not hit the recursion limit), one tree per component
+    for root in node_list:
+        if root in discovery:
+            continue
+        parent[root] = _NO_PARENT
+        discovery[root] = low[root] = time
+        time += 1
         iterations += 1
-
-        children = 0
-        discovery[v] = time[0]
-        low[v] = time[0]
-        time[0] += 1
-
-        for w in adj[v]:
-            if w not in discovery:
-                children += 1
-                parent[w] = v
-                dfs(w)
-                low[v] = min(low[v], low[w])
-
-                # v is an articulation point if:
-                # 1. v is root and has 2+ children, OR
-                # 2. v is not root and low[w] >= discovery[v]
-                if parent[v] is None:
-                    if children >= 2:
-                        ap.add(v)
-                elif low[w] >= discovery[v]:
-                    ap.add(v)
-
-            elif w != parent[v]:
-                low[v] = min(low[v], discovery[w])
-
-    # Handle disconnected components
-    for v in node_list:
-        if v not in discovery:
-            parent[v] = None
-            dfs(v)
+        root_children = 0
+        stack = [(root, iter(adj[root]))]
+        while stack:
+            v, it = stack[-1]
+            descended = False
+            for w in it:
+                if w not in discovery:
+                    parent[w] = v
+                    discovery[w] = low[w] = time
+                    time += 1
+                    iterations += 1
+                    if parent[v] is _NO_PARENT:
+                        root_children += 1
+                    stack.append((w, iter(adj[w])))
+                    descended = True
+                    break
+                if parent[v] is _NO_PARENT or w != parent[v]:
+                    low[v] = min(low[v], discovery[w])
+            if descended:
+                continue
+            stack.pop()
+            if stack:
+                p = stack[-1][0]
+                low[p] = min(low[p], low[v])
+                # a non-root p is an articulation point if some child subtree cannot climb above it
+                if parent[p] is not _NO_PARENT and low[v] >= discovery[p]:
+                    ap.add(p)
+        # the root is an articulation point if it has two or more DFS children
+        if root_children >= 2:
+            ap.add(root)
 
     return Result(ap, len(ap), iterations, n)
 
@@ -141,38 +149,44 @@ def bridges[S](
 
     discovery: dict[S, int] = {}
     low: dict[S, int] = {}
-    parent: dict[S, S | None] = {}
+    parent: dict[S, object] = {}
     bridge_list: list[tuple[S, S]] = []
-    time = [0]
+    time = 0
     iterations = 0
 
-    def dfs(v: S) -> None:
-        nonlocal iterations
+    # Iterative DFS (an explicit stack, so deep graphs do not hit the recursion limit), one tree per component
+    for root in node_list:
+        if root in discovery:
+            continue
+        parent[root] = _NO_PARENT
+        discovery[root] = low[root] = time
+        time += 1
         iterations += 1
-
-        discovery[v] = time[0]
-        low[v] = time[0]
-        time[0] += 1
-
-        for w in adj[v]:
-            if w not in discovery:
-                parent[w] = v
-                dfs(w)
-                low[v] = min(low[v], low[w])
-
-                # Edge (v, w) is a bridge if low[w] > discovery[v]
-                if low[w] > discovery[v]:
+        stack = [(root, iter(adj[root]))]
+        while stack:
+            v, it = stack[-1]
+            descended = False
+            for w in it:
+                if w not in discovery:
+                    parent[w] = v
+                    discovery[w] = low[w] = time
+                    time += 1
+                    iterations += 1
+                    stack.append((w, iter(adj[w])))
+                    descended = True
+                    break
+                if parent[v] is _NO_PARENT or w != parent[v]:
+                    low[v] = min(low[v], discovery[w])
+            if descended:
+                continue
+            stack.pop()
+            if stack:
+                p = stack[-1][0]
+                low[p] = min(low[p], low[v])
+                # Edge (p, v) is a bridge if v's subtree cannot reach p or above without it
+                if low[v] > discovery[p]:
                     # Canonical ordering for consistent results
-                    edge = (v, w) if v < w else (w, v)  # type: ignore[operator]
+                    edge = (p, v) if p < v else (v, p)  # type: ignore[operator]
                     bridge_list.append(edge)
-
-            elif w != parent[v]:
-                low[v] = min(low[v], discovery[w])
-
-    # Handle disconnected components
-    for v in node_list:
-        if v not in discovery:
-            parent[v] = None
-            dfs(v)
 
     return Result(bridge_list, len(bridge_list), iterations, n)
